@@ -15,6 +15,8 @@ from nutree.typed_tree import ANY_KIND
 
 ID = "C15"
 LEVEL = "exploration"
+TECHNIQUE = 'bounded-exhaustive kind patterns + Hypothesis; list-comprehension oracle'
+LEVEL_TEXT = 'exploration with an exhaustive part: all sibling kind patterns up to the bound at top level and nested, every position, every kind present or absent, any_kind on/off; kinds are passed as equal-but-distinct str objects'
 RULE = (
     "exhaustive part: every sibling kind pattern of length 0..M over kinds {x,y,z} (3^m patterns), placed at top "
     "level and below a parent node, every child position, every kind present or absent plus ANY_KIND, any_kind "
